@@ -132,6 +132,10 @@ pub trait Scheme: 'static {
     fn special_poly(rng: &mut Rng, s: &Sizes, kind: usize) -> Option<(Self::P, &'static str)>;
     fn rand_point(rng: &mut Rng, s: &Sizes) -> <Self::P as Polynomial<Fr>>::Point;
     fn is_constant(p: &Self::P) -> bool;
+    /// univariate: X^k·q of the given degree with `k ≥ 1` zero low-order coefficients (None elsewhere)
+    fn low_zero_poly(_rng: &mut Rng, _degree: usize) -> Option<Self::P> {
+        None
+    }
     /// multivariate: does the polynomial mention a variable with index >= nv?
     fn uses_var_at_least(_p: &Self::P, _nv: usize) -> bool {
         true
@@ -158,9 +162,24 @@ fn uni_special(rng: &mut Rng, kind: usize) -> Option<(UniPoly, &'static str)> {
     }
 }
 
+fn uni_low_zero(rng: &mut Rng, degree: usize) -> Option<UniPoly> {
+    if degree == 0 {
+        return None;
+    }
+    let mut p = UniPoly::rand(degree, rng);
+    let k = range(rng, 1, degree);
+    for c in p.coeffs.iter_mut().take(k) {
+        *c = Fr::from(0u64);
+    }
+    Some(p)
+}
+
 pub struct Marlin;
 impl Scheme for Marlin {
     type P = UniPoly;
+    fn low_zero_poly(rng: &mut Rng, degree: usize) -> Option<UniPoly> {
+        uni_low_zero(rng, degree)
+    }
     type PC = MarlinPC;
     const NAME: &'static str = "marlin";
     const BOUNDS: bool = true;
@@ -186,6 +205,9 @@ impl Scheme for Marlin {
 pub struct Sonic;
 impl Scheme for Sonic {
     type P = UniPoly;
+    fn low_zero_poly(rng: &mut Rng, degree: usize) -> Option<UniPoly> {
+        uni_low_zero(rng, degree)
+    }
     type PC = SonicPC;
     const NAME: &'static str = "sonic";
     const BOUNDS: bool = true;
@@ -210,6 +232,9 @@ impl Scheme for Sonic {
 pub struct Ipa;
 impl Scheme for Ipa {
     type P = UniPoly;
+    fn low_zero_poly(rng: &mut Rng, degree: usize) -> Option<UniPoly> {
+        uni_low_zero(rng, degree)
+    }
     type PC = IpaPC;
     const NAME: &'static str = "ipa";
     const BOUNDS: bool = true;
@@ -1311,6 +1336,32 @@ where
                 let lp = LabeledPolynomial::new("big".to_string(), big, None, None);
                 let r = guarded(|| S::PC::commit(&inst.ck, [&lp], Some(&mut rng.clone())));
                 refuse(ctx, &id, "degree-supported+1", matches!(r, Ok(Ok(_))), format!("sizes {:?}", sizes));
+            }
+        }
+        // (1b) the same with zero low-order coefficients (X^k·q): what the committer skips must not hide the degree;
+        //      and a polynomial committed under a LARGER key of the same parameters must not be opened under this one
+        if S::BOUNDS {
+            for over in [1usize, 2, 5] {
+                if let Some(big) = S::low_zero_poly(&mut rng, sizes.supported + over) {
+                    let lp = LabeledPolynomial::new("bigz".to_string(), big, None, None);
+                    let r = guarded(|| S::PC::commit(&inst.ck, [&lp], Some(&mut rng.clone())));
+                    refuse(ctx, &id, "degree-supported+k-low-zeros", matches!(r, Ok(Ok(_))), format!("sizes {:?} degree supported+{}", sizes, over));
+                }
+            }
+            if sizes.supported + 1 <= sizes.max_degree && S::BOUNDS_FROM_KEY {
+                if let Ok(Ok((ck_big, _))) = guarded(|| S::PC::trim(&inst.pp, sizes.supported + 1, 1, None)) {
+                    for dense in [true, false] {
+                        let big = if dense { Some(S::rand_poly(&mut rng, &sizes, sizes.supported + 1)) } else { S::low_zero_poly(&mut rng, sizes.supported + 1) };
+                        let big = match big { Some(b) if b.degree() == sizes.supported + 1 => b, _ => continue };
+                        let lp = LabeledPolynomial::new("bigo".to_string(), big, None, None);
+                        if let Ok(Ok((cs, sts))) = guarded(|| S::PC::commit(&ck_big, [&lp], Some(&mut rng.clone()))) {
+                            let pt = S::rand_point(&mut rng, &sizes);
+                            let mut sp = fresh_sponge();
+                            let r = guarded(|| S::PC::open(&inst.ck, [&lp], &cs, &pt, &mut sp, &sts, Some(&mut rng.clone())));
+                            refuse(ctx, &id, "open-degree-supported+1-under-smaller-key", matches!(r, Ok(Ok(_))), format!("sizes {:?} dense {}", sizes, dense));
+                        }
+                    }
+                }
             }
         }
         // (2) degree bounds: not enforced by the key / below the degree / beyond supported
